@@ -1,7 +1,7 @@
 (* C05 — the abstract statement: interface sets i^s, i^t of doc/comm/communication.tex as set comprehensions over the
    decomposition, and "every value gathered at a source entry reaches the scatter of its matching target entry exactly
    once and nothing else does".  Executable: the same functions are the oracle of checks/C05.py. *)
-From Coq Require Import List Arith Bool PeanoNat NArith Permutation.
+From Coq Require Import List Arith Bool PeanoNat NArith Permutation Sorted.
 From DuneV Require Import C05_Model.
 Import ListNotations.
 
@@ -163,3 +163,36 @@ Definition c05_dt_senders (sched : list (nat * nat)) (r : nat) : list nat := map
 (* the MPI precondition: on every rank, no cell is both sent from and received into (only matters for one container) *)
 Definition c05_dt_nonoverlap (sT rT : nat -> nat -> c05_dtype) : Prop :=
   forall r q p c, In c (c05_typemap (sT r q)) -> ~ In c (c05_typemap (rT r p)).
+
+(* ------------------------------------------------------------------ repeated use of one communicator on two container families
+   A phase = (direction, policy, completion order per rank); the communicators (c05_g_cm ifs szs szd) are built once. *)
+Record c05_phase_spec := { c05_ph_fwd : bool; c05_ph_add : bool; c05_ph_orders : nat -> list nat }.
+Definition c05_ok_data (r : c05_result) (dflt : c05_data) : c05_data := match r with C05_Ok d _ => d | _ => dflt end.
+Definition c05_seq_result (ifs : nat -> c05_imap) (szs szd : nat -> nat -> nat) (st : (nat -> c05_data) * (nat -> c05_data))
+           (ph : c05_phase_spec) (q : nat) : c05_result :=
+  let fwd := c05_ph_fwd ph in
+  let gd := if fwd then fst st else snd st in let sd := if fwd then snd st else fst st in
+  c05_recv_loop (c05_ph_add ph) fwd (c05_g_cm ifs szs szd q) (fun p => c05_g_msg fwd ifs gd szs szd p q)
+                (c05_recvs fwd (c05_g_cm ifs szs szd q)) (c05_ph_orders ph q) (sd q) [].
+Definition c05_seq_step (ifs : nat -> c05_imap) (szs szd : nat -> nat -> nat) (st : (nat -> c05_data) * (nat -> c05_data))
+           (ph : c05_phase_spec) : (nat -> c05_data) * (nat -> c05_data) :=
+  if c05_ph_fwd ph then (fst st, fun q => c05_ok_data (c05_seq_result ifs szs szd st ph q) (snd st q))
+  else (fun q => c05_ok_data (c05_seq_result ifs szs szd st ph q) (fst st q), snd st).
+Definition c05_seq_run (ifs : nat -> c05_imap) (szs szd : nat -> nat -> nat) (phs : list c05_phase_spec)
+           (st : (nat -> c05_data) * (nat -> c05_data)) := fold_left (c05_seq_step ifs szs szd) phs st.
+Definition c05_ph_orders_ok (ifs : nat -> c05_imap) (szs szd : nat -> nat -> nat) (ph : c05_phase_spec) : Prop :=
+  forall q, Permutation (c05_ph_orders ph q) (map fst (c05_recvs (c05_ph_fwd ph) (c05_g_cm ifs szs szd q))).
+
+(* ------------------------------------------------------------------ buffer layout; interfaces of a raw decomposition *)
+Definition c05_iv_send (x : nat * (c05_minfo * c05_minfo)) : nat * nat := (c05_mi_start (fst (snd x)), c05_mi_size (fst (snd x))).
+Definition c05_iv_recv (x : nat * (c05_minfo * c05_minfo)) : nat * nat := (c05_mi_start (snd (snd x)), c05_mi_size (snd (snd x))).
+Definition c05_layout_ok (ivs : list (nat * nat)) (lo hi : nat) : Prop :=
+  StronglySorted (fun a b => fst a + snd a <= fst b) ivs /\
+  Forall (fun a => lo <= fst a /\ fst a + snd a <= hi) ivs /\
+  list_sum (map snd ivs) = hi - lo.
+
+
+Definition c05_sorted_decomp (dec : c05_decomp) : c05_decomp := map (fun st => (c05_sort (fst st), c05_sort (snd st))) dec.
+Definition c05_dec_ifs (two ign : bool) (src dst : c05_flagset) (dec : c05_decomp) (p : nat) : c05_imap :=
+  c05_iface_def src dst (c05_remote_of two ign (c05_sorted_decomp dec) p).
+
